@@ -222,10 +222,22 @@ pub fn run_zst_tokens<K: Eq + std::hash::Hash + lru_mem::MemSize + std::fmt::Deb
                 log.push(format!("drain, {} calls, forget ({} leaked)", calls, leaked));
                 if tok_live() - base != leaked as i64 { bad("C17", "zst-token-forgotten-drain", format!("{}: {} tokens alive after a forgotten Drain that still held {}", label, tok_live() - base, leaked), &log, out); }
                 // the leaked ones are written off by ending this history here
-                for e in 0..3u32 { let _ = c.insert(mk_k(e), Tok::new()); let _ = c.remove(&mk_k(e)); }
-                if c.len() != 0 || tok_live() - base != leaked as i64 { bad("C17", "zst-token-forgotten-drain", format!("{}: further use after a forgotten Drain: len() = {}, {} tokens alive, {} were leaked", label, c.len(), tok_live() - base, leaked), &log, out); }
-                drop(c);
-                if tok_live() - base != leaked as i64 { bad("C17", "zst-token-forgotten-drain", format!("{}: dropping the cache after a forgotten Drain changed the number of live tokens to {} ({} were leaked)", label, tok_live() - base, leaked), &log, out); }
+                // further use and drop; a cache that panics here (its table and list disagree) is a C17 verdict, not a harness crash
+                let r = std::panic::catch_unwind(std::panic::AssertUnwindSafe(|| {
+                    let mut c = c;
+                    for e in 0..3u32 { let _ = c.insert(mk_k(e), Tok::new()); let _ = c.remove(&mk_k(e)); }
+                    let len = c.len();
+                    let mid = tok_live();
+                    drop(c);
+                    (len, mid, tok_live())
+                }));
+                match r {
+                    Ok((len, mid, end)) => {
+                        if len != 0 || mid - base != leaked as i64 { bad("C17", "zst-token-forgotten-drain", format!("{}: further use after a forgotten Drain: len() = {}, {} tokens alive, {} were leaked", label, len, mid - base, leaked), &log, out); }
+                        if end - base != leaked as i64 { bad("C17", "zst-token-forgotten-drain", format!("{}: dropping the cache after a forgotten Drain changed the number of live tokens to {} ({} were leaked)", label, end - base, leaked), &log, out); }
+                    }
+                    Err(_) => bad("C17", "zst-token-forgotten-drain", format!("{}: the cache panicked during insert/remove/drop after a forgotten Drain ({} calls)", label, calls), &log, out),
+                }
                 out.stats.eval("C17", mix(&[7400, calls.min(9) as u64, leaked.min(9) as u64, label.len() as u64]));
                 out.stats.events += 1; out.stats.histories += 1;
                 return;
